@@ -1,6 +1,1259 @@
+//! C01 / C08 — signed notices in all three JWS serialisations between signers (Ed25519 through the shipped storage,
+//! ES256 / ES256K through a harness-side KMS stub) and a receiver, over a network with bit flips and a Byzantine
+//! adversary; storage faults during signing; every verification goes through a recording verifier.
+
+use super::b64url_decode;
+use super::Clock;
+use super::Party;
 use crate::core::batch::Params;
-pub const RULE: &str = "";
-pub fn probes(_prop: &str, _tier: &str) -> Vec<String> {
-  Vec::new()
+use crate::core::ctx;
+use crate::core::exec::block_on;
+use crate::engines::stor::AnyDoc;
+use identity_did::CoreDID;
+use identity_document::document::CoreDocument;
+use identity_document::verifiable::JwsVerificationOptions;
+use identity_ecdsa_verifier::EcDSAJwsVerifier;
+use identity_eddsa_verifier::EdDSAJwsVerifier;
+use identity_jose::jwk::Jwk;
+use identity_jose::jws::CompactJwsEncoder;
+use identity_jose::jws::CompactJwsEncodingOptions;
+use identity_jose::jws::Decoder;
+use identity_jose::jws::FlattenedJwsEncoder;
+use identity_jose::jws::GeneralJwsEncoder;
+use identity_jose::jws::JwsAlgorithm;
+use identity_jose::jws::JwsHeader;
+use identity_jose::jws::JwsVerifier;
+use identity_jose::jws::Recipient;
+use identity_jose::jws::SignatureVerificationError;
+use identity_jose::jws::VerificationInput;
+use identity_storage::JwkDocumentExt;
+use identity_storage::JwkStorage;
+use identity_storage::JwsSignatureOptions;
+use identity_storage::KeyIdStorage;
+use identity_storage::MethodDigest;
+use identity_verification::MethodScope;
+use identity_verification::VerificationMethod;
+use serde_json::Value;
+use std::cell::RefCell;
+
+pub const RULE: &str = "One run = 2-3 signers (Ed25519 keys in the shipped JwkMemStore behind the fault-injecting wrapper; ES256 and \
+  ES256K keys in a harness KMS stub) and a receiver. 3-10 notices are produced with the compact, flattened or general \
+  encoder (1-3 co-signers added in tape-chosen arrival order) or through create_jws with tape-drawn JwsSignatureOptions; \
+  payloads are binary / UTF-8 / with dots, quotes, backslashes and control characters, attached or detached, b64 true or \
+  false; storage calls may fail while signing. Tokens are delivered intact, with one bit flipped in the protected, payload \
+  or signature segment, truncated, spliced, with alg moved to the unprotected header, with both an embedded and a detached \
+  payload, with the wrong detached payload, or with the signature stripped. The receiver decodes with the matching decoder \
+  and verifies each signature through a recording verifier around the real EdDSA / ECDSA verifiers. Non-trivial: a fault, \
+  adversary move or storage failure fired; distinct = distinct hashes of (serialisation, options, moves).";
+
+pub fn probes(prop: &str, _tier: &str) -> Vec<String> {
+  let mut v: Vec<&str> = vec![
+    "probe.ser.compact",
+    "probe.ser.flattened",
+    "probe.ser.general",
+    "probe.alg.EdDSA",
+    "probe.alg.ES256",
+    "probe.alg.ES256K",
+    "probe.b64_false",
+    "probe.detached",
+    "probe.verified_ok",
+    "probe.general_multi_signer",
+  ];
+  if prop == "C01" {
+    v.extend([
+      "fault.net.bitflip.protected",
+      "fault.net.bitflip.payload",
+      "fault.net.bitflip.signature",
+      "fault.net.truncate",
+      "fault.adversary.splice",
+      "fault.adversary.alg_to_unprotected",
+      "fault.adversary.both_payloads",
+      "fault.adversary.wrong_detached_payload",
+      "fault.adversary.strip_signature",
+      "probe.tampered_rejected",
+    ]);
+  } else {
+    v.extend([
+      "fault.storage.fail_clean.sign",
+      "fault.storage.fail_clean.get_key_id",
+      "probe.retry_after_storage_fault_ok",
+      "probe.create_jws_options",
+      "probe.separation.other_key_rejected",
+      "probe.separation.other_nonce_rejected",
+      "probe.separation.scope_rejected",
+      "probe.payload_needs_json_escape",
+    ]);
+  }
+  v.into_iter().map(str::to_owned).collect()
 }
-pub fn run(_prop: &str, _params: &Params) {}
+
+// ------------------------------------------------------------------------------------------------------------------
+// Recording verifier (wraps the real verifiers)
+// ------------------------------------------------------------------------------------------------------------------
+
+#[derive(Clone)]
+struct VerifyRecord {
+  alg: String,
+  signing_input: Vec<u8>,
+  signature: Vec<u8>,
+  key: Value,
+  ok: bool,
+}
+
+struct RecordingVerifier {
+  log: RefCell<Vec<VerifyRecord>>,
+}
+
+impl JwsVerifier for RecordingVerifier {
+  fn verify(&self, input: VerificationInput, public_key: &Jwk) -> Result<(), SignatureVerificationError> {
+    let alg = input.alg;
+    let si = input.signing_input.to_vec();
+    let sig = input.decoded_signature.to_vec();
+    let r = match alg {
+      JwsAlgorithm::EdDSA => EdDSAJwsVerifier::default().verify(input, public_key),
+      _ => EcDSAJwsVerifier::default().verify(input, public_key),
+    };
+    self.log.borrow_mut().push(VerifyRecord {
+      alg: alg.name().to_owned(),
+      signing_input: si,
+      signature: sig,
+      key: serde_json::to_value(public_key).unwrap_or(Value::Null),
+      ok: r.is_ok(),
+    });
+    r
+  }
+}
+
+// ------------------------------------------------------------------------------------------------------------------
+// Signers
+// ------------------------------------------------------------------------------------------------------------------
+
+enum EcKey {
+  P256(p256::ecdsa::SigningKey),
+  K256(k256::ecdsa::SigningKey),
+}
+
+enum SignerKind {
+  /// Ed25519 key held in the party's (fault-wrapped) storage
+  Stored(Box<Party>),
+  /// harness KMS stub
+  Kms { key: EcKey, doc: CoreDocument },
+}
+
+struct Signer {
+  kind: SignerKind,
+  did: String,
+  /// (fragment, scope is general?) of its signing methods
+  fragment: String,
+  alg: &'static str,
+  jwk: Value,
+}
+
+struct SignEvent {
+  signer: usize,
+  signing_input: Vec<u8>,
+  signature: Vec<u8>,
+}
+
+fn b64(b: &[u8]) -> String {
+  identity_jose::jwu::encode_b64(b)
+}
+
+fn new_kms_signer(n: usize, k256: bool) -> Signer {
+  let did = format!("did:sim:kms{n}");
+  let mut seed = ctx::bytes(32);
+  seed[0] |= 1;
+  seed[0] &= 0x7f;
+  let (key, jwk, alg) = if k256 {
+    let sk = k256::ecdsa::SigningKey::from_slice(&seed).expect("valid scalar");
+    let pt = sk.verifying_key().to_encoded_point(false);
+    let jwk = serde_json::json!({"kty":"EC","crv":"secp256k1","alg":"ES256K","x": b64(pt.x().unwrap()), "y": b64(pt.y().unwrap())});
+    (EcKey::K256(sk), jwk, "ES256K")
+  } else {
+    let sk = p256::ecdsa::SigningKey::from_slice(&seed).expect("valid scalar");
+    let pt = sk.verifying_key().to_encoded_point(false);
+    let jwk = serde_json::json!({"kty":"EC","crv":"P-256","alg":"ES256","x": b64(pt.x().unwrap()), "y": b64(pt.y().unwrap())});
+    (EcKey::P256(sk), jwk, "ES256")
+  };
+  let j: Jwk = serde_json::from_value(jwk.clone()).expect("EC JWK");
+  let m = VerificationMethod::new_from_jwk(CoreDID::parse(&did).unwrap(), j, Some("ec")).expect("method");
+  let doc = CoreDocument::builder(Default::default())
+    .id(CoreDID::parse(&did).unwrap())
+    .verification_method(m)
+    .build()
+    .expect("doc");
+  Signer {
+    kind: SignerKind::Kms { key, doc },
+    did,
+    fragment: "ec".to_owned(),
+    alg,
+    jwk,
+  }
+}
+
+fn new_stored_signer(n: usize, clock: &Clock) -> Option<Signer> {
+  let mut p = Party::new("signer", false, n);
+  clock.enter(0);
+  p.gen_method("key", None).ok()?;
+  if ctx::choose(2) == 0 {
+    match &mut p.doc {
+      AnyDoc::Core(d) => {
+        let _ = d.attach_method_relationship("key", identity_verification::MethodRelationship::Authentication);
+      }
+      AnyDoc::Iota(_) => {}
+    }
+  }
+  // a second method for the separation checks
+  p.gen_method("second", Some(1)).ok()?;
+  let jwk = p
+    .doc
+    .core()
+    .resolve_method("key", None)
+    .and_then(|m| m.data().public_key_jwk().cloned())
+    .map(|j| serde_json::to_value(j).unwrap())?;
+  Some(Signer {
+    did: p.did.clone(),
+    kind: SignerKind::Stored(Box::new(p)),
+    fragment: "key".to_owned(),
+    alg: "EdDSA",
+    jwk,
+  })
+}
+
+impl Signer {
+  fn doc(&self) -> &CoreDocument {
+    match &self.kind {
+      SignerKind::Stored(p) => p.doc.core(),
+      SignerKind::Kms { doc, .. } => doc,
+    }
+  }
+  fn kid(&self) -> String {
+    format!("{}#{}", self.did, self.fragment)
+  }
+  /// Signs through the storage seam (real memstore) or the KMS stub.
+  fn sign(&self, input: &[u8]) -> Result<Vec<u8>, String> {
+    match &self.kind {
+      SignerKind::Stored(p) => {
+        let method = p.doc.core().resolve_method(self.fragment.as_str(), None).ok_or("no method")?;
+        let digest = MethodDigest::new(method).map_err(|e| e.to_string())?;
+        let key_id = block_on(p.storage.key_id_storage().get_key_id(&digest)).map_err(|e| e.to_string())?;
+        let jwk: Jwk = serde_json::from_value(self.jwk.clone()).map_err(|e| e.to_string())?;
+        block_on(p.storage.key_storage().sign(&key_id, input, &jwk)).map_err(|e| e.to_string())
+      }
+      SignerKind::Kms { key, .. } => Ok(match key {
+        EcKey::P256(sk) => {
+          use p256::ecdsa::signature::Signer as _;
+          let s: p256::ecdsa::Signature = sk.sign(input);
+          s.to_bytes().to_vec()
+        }
+        EcKey::K256(sk) => {
+          use k256::ecdsa::signature::Signer as _;
+          let s: k256::ecdsa::Signature = sk.sign(input);
+          s.to_bytes().to_vec()
+        }
+      }),
+    }
+  }
+}
+
+// ------------------------------------------------------------------------------------------------------------------
+// Notices
+// ------------------------------------------------------------------------------------------------------------------
+
+#[derive(Clone, Copy, PartialEq, Debug)]
+enum Ser {
+  Compact,
+  Flattened,
+  General,
+}
+
+#[derive(Clone)]
+struct SigPart {
+  signer: usize,
+  protected_b64: String,
+  protected: Value,
+  unprotected: Option<Value>,
+  signature: Vec<u8>,
+}
+
+#[derive(Clone)]
+struct Notice {
+  ser: Ser,
+  wire: String,
+  /// what a receiver has to pass as detached payload (already in the form that was signed)
+  detached: Option<Vec<u8>>,
+  b64: bool,
+  raw_payload: Vec<u8>,
+  /// the payload exactly as it appears in the signing input (b64url text if b64 else raw)
+  signed_payload: Vec<u8>,
+  parts: Vec<SigPart>,
+  nonce: Option<String>,
+  via_create_jws: bool,
+}
+
+fn gen_payload(b64_flag: bool, ser: Ser, detached: bool) -> Vec<u8> {
+  let kind = if b64_flag { ctx::choose(5) } else { 1 + ctx::choose(4) };
+  let mut p: Vec<u8> = match kind {
+    0 => ctx::bytes(1 + ctx::choose(40)),
+    1 => format!("notice {}", ctx::choose(10_000)).into_bytes(),
+    2 => format!("{{\"msg\":\"hello\",\"n\":{}}}", ctx::choose(1000)).into_bytes(),
+    3 => format!("he said \"hi\" \\ back\\slash {}", ctx::choose(100)).into_bytes(),
+    _ => format!("line\nbreak\ttab {} \u{1}", ctx::choose(100)).into_bytes(),
+  };
+  if ctx::choose(3) == 0 {
+    p.extend_from_slice(b".with.dots");
+  }
+  // an attached un-encoded payload must not contain '.' in the compact form (the encoder refuses it otherwise)
+  if !b64_flag && !detached && ser == Ser::Compact {
+    // CharSet::Default: printable ASCII without '.'
+    p.retain(|b| (0x20..=0x7e).contains(b) && *b != b'.');
+  }
+  if p.is_empty() {
+    p.push(b'x');
+  }
+  p
+}
+
+fn header_json(signer: &Signer, b64_flag: bool, nonce: &Option<String>, extra: bool) -> Value {
+  let mut h = serde_json::json!({"alg": signer.alg, "kid": signer.kid()});
+  if !b64_flag {
+    h["b64"] = false.into();
+    h["crit"] = serde_json::json!(["b64"]);
+  }
+  if let Some(n) = nonce {
+    h["nonce"] = n.clone().into();
+  }
+  if extra {
+    h["typ"] = "notice+jws".into();
+    h["simParam"] = Value::from(ctx::choose(100) as u64);
+  }
+  h
+}
+
+/// Produces a notice with one of the three encoders. Returns None if the encoder refuses the combination.
+fn produce(signers: &[Signer], events: &mut Vec<SignEvent>, ser: Ser) -> Option<Notice> {
+  let b64_flag = ctx::choose(3) != 0;
+  let detached = ctx::choose(3) == 0;
+  let nonce = if ctx::choose(3) == 0 { Some(format!("n{}", ctx::choose(1000))) } else { None };
+  let raw = gen_payload(b64_flag, ser, detached);
+  let n_signers = if ser == Ser::General { 1 + ctx::choose(3.min(signers.len())) } else { 1 };
+  // arrival order of co-signers chosen by the tape
+  let mut order: Vec<usize> = (0..signers.len()).collect();
+  for i in (1..order.len()).rev() {
+    order.swap(i, ctx::choose(i + 1));
+  }
+  order.truncate(n_signers);
+  let signed_payload: Vec<u8> = if b64_flag { b64(&raw).into_bytes() } else { raw.clone() };
+  let mut parts: Vec<SigPart> = Vec::new();
+  let headers: Vec<(JwsHeader, Option<JwsHeader>, Value, Option<Value>)> = order
+    .iter()
+    .map(|si| {
+      let hj = header_json(&signers[*si], b64_flag, &nonce, ctx::choose(2) == 0);
+      let uj = if ser != Ser::Compact && ctx::choose(2) == 0 {
+        Some(serde_json::json!({"simUnprotected": format!("u{}", ctx::choose(50))}))
+      } else {
+        None
+      };
+      let h: JwsHeader = serde_json::from_value(hj.clone()).expect("header");
+      let u: Option<JwsHeader> = uj.clone().map(|u| serde_json::from_value(u).expect("unprotected header"));
+      (h, u, hj, uj)
+    })
+    .collect();
+  let wire: String = match ser {
+    Ser::Compact => {
+      let (h, _, hj, _) = &headers[0];
+      let opts = if detached {
+        CompactJwsEncodingOptions::Detached
+      } else {
+        CompactJwsEncodingOptions::NonDetached {
+          charset_requirements: identity_jose::jws::CharSet::Default,
+        }
+      };
+      let enc = CompactJwsEncoder::new_with_options(&raw, h, opts).ok()?;
+      let input = enc.signing_input().to_vec();
+      let sig = signers[order[0]].sign(&input).ok()?;
+      events.push(SignEvent {
+        signer: order[0],
+        signing_input: input.clone(),
+        signature: sig.clone(),
+      });
+      let w = enc.into_jws(&sig);
+      parts.push(SigPart {
+        signer: order[0],
+        protected_b64: w.split('.').next().unwrap_or("").to_owned(),
+        protected: hj.clone(),
+        unprotected: None,
+        signature: sig,
+      });
+      w
+    }
+    Ser::Flattened => {
+      let (h, u, hj, uj) = &headers[0];
+      let mut r = Recipient::new().protected(h);
+      if let Some(u) = u {
+        r = r.unprotected(u);
+      }
+      let enc = FlattenedJwsEncoder::new(&raw, r, detached).ok()?;
+      let input = enc.signing_input().to_vec();
+      let sig = signers[order[0]].sign(&input).ok()?;
+      events.push(SignEvent {
+        signer: order[0],
+        signing_input: input.clone(),
+        signature: sig.clone(),
+      });
+      let w = enc.into_jws(&sig).ok()?;
+      let pb = String::from_utf8_lossy(&input).split('.').next().unwrap_or("").to_owned();
+      parts.push(SigPart {
+        signer: order[0],
+        protected_b64: pb,
+        protected: hj.clone(),
+        unprotected: uj.clone(),
+        signature: sig,
+      });
+      w
+    }
+    Ser::General => {
+      let mk = |i: usize| {
+        let (h, u, _, _) = &headers[i];
+        let mut r = Recipient::new().protected(h);
+        if let Some(u) = u {
+          r = r.unprotected(u);
+        }
+        r
+      };
+      let mut enc = GeneralJwsEncoder::new(&raw, mk(0), detached).ok()?;
+      let mut i = 0;
+      let ready = loop {
+        let input = enc.signing_input().to_vec();
+        let sig = signers[order[i]].sign(&input).ok()?;
+        events.push(SignEvent {
+          signer: order[i],
+          signing_input: input.clone(),
+          signature: sig.clone(),
+        });
+        let pb = String::from_utf8_lossy(&input).split('.').next().unwrap_or("").to_owned();
+        parts.push(SigPart {
+          signer: order[i],
+          protected_b64: pb,
+          protected: headers[i].2.clone(),
+          unprotected: headers[i].3.clone(),
+          signature: sig.clone(),
+        });
+        let ready = enc.set_signature(&sig);
+        i += 1;
+        if i >= order.len() {
+          break ready;
+        }
+        enc = ready.add_recipient(mk(i)).ok()?;
+      };
+      if order.len() > 1 {
+        ctx::stat("probe.general_multi_signer");
+      }
+      ready.into_jws().ok()?
+    }
+  };
+  Some(Notice {
+    ser,
+    wire,
+    detached: if detached { Some(signed_payload.clone()) } else { None },
+    b64: b64_flag,
+    raw_payload: raw,
+    signed_payload,
+    parts,
+    nonce,
+    via_create_jws: false,
+  })
+}
+
+/// create_jws on the signer's document with tape-drawn JwsSignatureOptions, possibly under storage faults.
+fn produce_create_jws(signers: &[Signer], si: usize, faulty: bool) -> Option<Notice> {
+  let s = &signers[si];
+  let SignerKind::Stored(p) = &s.kind else { return None };
+  ctx::stat("probe.create_jws_options");
+  let mut opts = JwsSignatureOptions::default();
+  let b64_flag = ctx::choose(3) != 0;
+  if ctx::choose(2) == 0 || !b64_flag {
+    opts = opts.b64(b64_flag);
+  }
+  let detached = ctx::choose(3) == 0;
+  if detached {
+    opts = opts.detached_payload(true);
+  }
+  let nonce = if ctx::choose(3) == 0 { Some(format!("n{}", ctx::choose(1000))) } else { None };
+  if let Some(n) = &nonce {
+    opts = opts.nonce(n.clone());
+  }
+  if ctx::choose(3) == 0 {
+    opts = opts.attach_jwk_to_header(true);
+  }
+  if ctx::choose(3) == 0 {
+    opts = opts.typ("notice+jws".to_owned());
+  }
+  if ctx::choose(3) == 0 {
+    opts = opts.cty("text/plain".to_owned());
+  }
+  if ctx::choose(4) == 0 {
+    opts = opts.url(identity_core::common::Url::parse("https://notice.example/a").unwrap());
+  }
+  let kid_override = ctx::choose(5) == 0;
+  if kid_override {
+    opts = opts.kid("custom-kid".to_owned());
+  }
+  if ctx::choose(4) == 0 {
+    let mut m = std::collections::BTreeMap::new();
+    m.insert("simCustom".to_owned(), Value::from(ctx::choose(10) as u64));
+    opts = opts.custom_header_parameters(m);
+  }
+  let raw = gen_payload(b64_flag, Ser::Compact, detached);
+  // storage faults while signing (I8.2)
+  if faulty {
+    let mut rates = p.ctl.rates.borrow_mut();
+    rates.insert("sign", (1, 3));
+    rates.insert("get_key_id", (1, 4));
+  }
+  p.ctl.begin_op(0);
+  let before = p.ctl.sign_log.borrow().len();
+  let r = match &p.doc {
+    AnyDoc::Core(d) => block_on(d.create_jws(&p.storage, &s.fragment, &raw, &opts)),
+    AnyDoc::Iota(d) => block_on(d.create_jws(&p.storage, &s.fragment, &raw, &opts)),
+  };
+  let injected = !p.ctl.failed_kinds().is_empty();
+  p.ctl.end_op();
+  p.ctl.rates.borrow_mut().clear();
+  let jws = match r {
+    Ok(j) => {
+      if injected {
+        ctx::violation(
+          "C08",
+          "C08.storage_fault_yields_error_not_token",
+          "create_jws/token-despite-storage-failure",
+          format!("create_jws returned a token although storage calls {:?} failed", p.ctl.failed_kinds()),
+        );
+      }
+      j.as_str().to_owned()
+    }
+    Err(e) => {
+      if injected {
+        // retry without faults must succeed
+        p.ctl.begin_op(0);
+        let r2 = match &p.doc {
+          AnyDoc::Core(d) => block_on(d.create_jws(&p.storage, &s.fragment, &raw, &opts)),
+          AnyDoc::Iota(d) => block_on(d.create_jws(&p.storage, &s.fragment, &raw, &opts)),
+        };
+        p.ctl.end_op();
+        match r2 {
+          Ok(j) => {
+            ctx::stat("probe.retry_after_storage_fault_ok");
+            ctx::mark_nontrivial();
+            j.as_str().to_owned()
+          }
+          Err(e2) => {
+            ctx::violation(
+              "C08",
+              "C08.storage_fault_yields_error_not_token",
+              "create_jws/retry-fails",
+              format!("create_jws failed under an injected storage fault ({e}) and the retry without faults fails too: {e2}"),
+            );
+            return None;
+          }
+        }
+      } else {
+        ctx::violation(
+          "C08",
+          "C08.produced_token_decodes_and_verifies",
+          "create_jws/refused-valid-options",
+          format!("create_jws refused a valid option combination ({opts:?}, {}-byte payload): {e}", raw.len()),
+        );
+        return None;
+      }
+    }
+  };
+  let log = p.ctl.sign_log.borrow();
+  let ev = log.get(before..).and_then(|s| s.last())?;
+  let protected_b64 = jws.split('.').next().unwrap_or("").to_owned();
+  let protected: Value = b64url_decode(&protected_b64).and_then(|b| serde_json::from_slice(&b).ok()).unwrap_or(Value::Null);
+  let signed_payload: Vec<u8> = if b64_flag { b64(&raw).into_bytes() } else { raw.clone() };
+  Some(Notice {
+    ser: Ser::Compact,
+    wire: jws,
+    detached: if detached { Some(signed_payload.clone()) } else { None },
+    b64: b64_flag,
+    raw_payload: raw,
+    signed_payload,
+    parts: vec![SigPart {
+      signer: si,
+      protected_b64,
+      protected,
+      unprotected: None,
+      signature: ev.signature.clone(),
+    }],
+    nonce,
+    via_create_jws: true,
+  })
+}
+
+// ------------------------------------------------------------------------------------------------------------------
+// Delivery
+// ------------------------------------------------------------------------------------------------------------------
+
+#[derive(Clone, Debug, PartialEq)]
+enum Move {
+  Intact,
+  FlipProtected,
+  FlipPayload,
+  FlipSignature,
+  Truncate,
+  Splice,
+  AlgToUnprotected,
+  BothPayloads,
+  WrongDetached,
+  StripSignature,
+}
+
+struct Delivered {
+  wire: String,
+  detached: Option<Vec<u8>>,
+  mv: Move,
+}
+
+/// Flips one bit of the `idx`-th base64url character run found after `marker` in `wire`.
+fn flip_in_segment(seg: &str) -> Option<String> {
+  if seg.is_empty() {
+    return None;
+  }
+  let pos = ctx::choose(seg.len());
+  let bit = ctx::choose(6) as u8;
+  let mut b = seg.as_bytes().to_vec();
+  b[pos] ^= 1 << bit;
+  ctx::sched("flip", (pos * 8 + bit as usize) as u64);
+  String::from_utf8(b).ok()
+}
+
+fn deliver(n: &Notice, others: &[Notice]) -> Delivered {
+  let mv = match ctx::weighted(&[8, 2, 2, 2, 1, 1, 1, 1, 1, 1]) {
+    0 => Move::Intact,
+    1 => Move::FlipProtected,
+    2 => Move::FlipPayload,
+    3 => Move::FlipSignature,
+    4 => Move::Truncate,
+    5 => Move::Splice,
+    6 => Move::AlgToUnprotected,
+    7 => Move::BothPayloads,
+    8 => Move::WrongDetached,
+    _ => Move::StripSignature,
+  };
+  let mut wire = n.wire.clone();
+  let mut detached = n.detached.clone();
+  let json_edit = |f: &dyn Fn(&mut Value) -> bool| -> Option<String> {
+    let mut v: Value = serde_json::from_str(&n.wire).ok()?;
+    if f(&mut v) {
+      Some(v.to_string())
+    } else {
+      None
+    }
+  };
+  let applied: Option<()> = match (&mv, n.ser) {
+    (Move::Intact, _) => Some(()),
+    (Move::FlipProtected | Move::FlipPayload | Move::FlipSignature, Ser::Compact) => {
+      let parts: Vec<&str> = n.wire.split('.').collect();
+      let idx = match mv {
+        Move::FlipProtected => 0,
+        Move::FlipPayload => 1,
+        _ => 2,
+      };
+      if idx == 1 && n.detached.is_some() {
+        // the payload travels separately: flip it there
+        detached.as_mut().and_then(|d| {
+          if d.is_empty() {
+            return None;
+          }
+          let pos = ctx::choose(d.len());
+          d[pos] ^= 1 << ctx::choose(6);
+          Some(())
+        })
+      } else {
+        flip_in_segment(parts[idx]).map(|f| {
+          let mut p: Vec<String> = parts.iter().map(|s| (*s).to_owned()).collect();
+          p[idx] = f;
+          wire = p.join(".");
+        })
+      }
+    }
+    (Move::FlipProtected | Move::FlipPayload | Move::FlipSignature, _) => {
+      let field = match mv {
+        Move::FlipProtected => "protected",
+        Move::FlipPayload => "payload",
+        _ => "signature",
+      };
+      if field == "payload" && n.detached.is_some() {
+        detached.as_mut().and_then(|d| {
+          if d.is_empty() {
+            return None;
+          }
+          let pos = ctx::choose(d.len());
+          d[pos] ^= 1 << ctx::choose(6);
+          Some(())
+        })
+      } else {
+        json_edit(&|v: &mut Value| {
+          let target: Option<&mut Value> = if field == "payload" {
+            v.get_mut("payload")
+          } else if v.get("signatures").is_some() {
+            let k = v["signatures"].as_array().map(|a| a.len()).unwrap_or(0);
+            if k == 0 {
+              None
+            } else {
+              let i = ctx::choose(k);
+              v["signatures"][i].get_mut(field)
+            }
+          } else {
+            v.get_mut(field)
+          };
+          match target {
+            Some(Value::String(s)) => match flip_in_segment(s) {
+              Some(f) => {
+                *s = f;
+                true
+              }
+              None => false,
+            },
+            _ => false,
+          }
+        })
+        .map(|w| wire = w)
+      }
+    }
+    (Move::Truncate, _) => {
+      let cut = ctx::choose(n.wire.len());
+      wire = n.wire[..cut].to_owned();
+      Some(())
+    }
+    (Move::Splice, Ser::Compact) => others.iter().find(|o| o.ser == Ser::Compact && o.wire != n.wire && o.detached.is_none()).and_then(|o| {
+      let a: Vec<&str> = n.wire.split('.').collect();
+      let b: Vec<&str> = o.wire.split('.').collect();
+      if a.len() == 3 && b.len() == 3 && n.detached.is_none() {
+        wire = format!("{}.{}.{}", a[0], b[1], a[2]);
+        Some(())
+      } else {
+        None
+      }
+    }),
+    (Move::Splice, _) => others
+      .iter()
+      .find(|o| o.ser == n.ser && o.wire != n.wire && o.detached.is_none() && n.detached.is_none())
+      .and_then(|o| {
+        let ov: Value = serde_json::from_str(&o.wire).ok()?;
+        let op = ov.get("payload")?.clone();
+        json_edit(&|v: &mut Value| {
+          v["payload"] = op.clone();
+          true
+        })
+        .map(|w| wire = w)
+      }),
+    (Move::AlgToUnprotected, Ser::Flattened | Ser::General) => json_edit(&|v: &mut Value| {
+      // re-encode the protected header without alg and put alg into the unprotected header
+      let sigobj: &mut Value = if v.get("signatures").is_some() { &mut v["signatures"][0] } else { v };
+      let Some(p) = sigobj.get("protected").and_then(|p| p.as_str()).map(str::to_owned) else { return false };
+      let Some(mut h) = b64url_decode(&p).and_then(|b| serde_json::from_slice::<Value>(&b).ok()) else { return false };
+      let Some(alg) = h.as_object_mut().and_then(|o| o.remove("alg")) else { return false };
+      sigobj["protected"] = b64(h.to_string().as_bytes()).into();
+      let mut u = sigobj.get("header").cloned().unwrap_or_else(|| serde_json::json!({}));
+      u["alg"] = alg;
+      sigobj["header"] = u;
+      true
+    })
+    .map(|w| wire = w),
+    (Move::AlgToUnprotected, Ser::Compact) => None,
+    (Move::BothPayloads, _) => {
+      if n.detached.is_none() {
+        // embedded payload present: additionally supply a detached one
+        detached = Some(n.signed_payload.clone());
+        Some(())
+      } else {
+        None
+      }
+    }
+    (Move::WrongDetached, _) => {
+      if n.detached.is_some() {
+        let other = others.iter().find(|o| o.signed_payload != n.signed_payload && o.b64 == n.b64);
+        other.map(|o| detached = Some(o.signed_payload.clone()))
+      } else {
+        None
+      }
+    }
+    (Move::StripSignature, Ser::Compact) => {
+      let parts: Vec<&str> = n.wire.split('.').collect();
+      wire = format!("{}.{}.", parts[0], parts.get(1).copied().unwrap_or(""));
+      Some(())
+    }
+    (Move::StripSignature, _) => json_edit(&|v: &mut Value| {
+      if v.get("signatures").is_some() {
+        v["signatures"][0]["signature"] = "".into();
+      } else {
+        v["signature"] = "".into();
+      }
+      true
+    })
+    .map(|w| wire = w),
+  };
+  let mv = if applied.is_none() || (wire == n.wire && detached == n.detached) { Move::Intact } else { mv };
+  if mv == Move::Intact {
+    wire = n.wire.clone();
+    detached = n.detached.clone();
+  }
+  match mv {
+    Move::FlipProtected => ctx::stat("fault.net.bitflip.protected"),
+    Move::FlipPayload => ctx::stat("fault.net.bitflip.payload"),
+    Move::FlipSignature => ctx::stat("fault.net.bitflip.signature"),
+    Move::Truncate => ctx::stat("fault.net.truncate"),
+    Move::Splice => ctx::stat("fault.adversary.splice"),
+    Move::AlgToUnprotected => ctx::stat("fault.adversary.alg_to_unprotected"),
+    Move::BothPayloads => ctx::stat("fault.adversary.both_payloads"),
+    Move::WrongDetached => ctx::stat("fault.adversary.wrong_detached_payload"),
+    Move::StripSignature => ctx::stat("fault.adversary.strip_signature"),
+    Move::Intact => {}
+  }
+  Delivered { wire, detached, mv }
+}
+
+// ------------------------------------------------------------------------------------------------------------------
+// Receiver
+// ------------------------------------------------------------------------------------------------------------------
+
+/// What the received bytes look like to the harness: per signature (protected segment as received, signature bytes),
+/// plus the payload as received (embedded or detached).
+struct ReceivedView {
+  payload: Option<Vec<u8>>,
+  sigs: Vec<(String, Option<Vec<u8>>)>,
+}
+
+fn view(ser: Ser, wire: &str, detached: &Option<Vec<u8>>) -> Option<ReceivedView> {
+  match ser {
+    Ser::Compact => {
+      let parts: Vec<&str> = wire.split('.').collect();
+      if parts.len() != 3 {
+        return None;
+      }
+      let embedded = if parts[1].is_empty() { None } else { Some(parts[1].as_bytes().to_vec()) };
+      let payload = match (embedded, detached) {
+        (Some(e), None) => Some(e),
+        (None, Some(d)) => Some(d.clone()),
+        _ => None,
+      };
+      Some(ReceivedView {
+        payload,
+        sigs: vec![(parts[0].to_owned(), b64url_decode(parts[2]))],
+      })
+    }
+    _ => {
+      let v: Value = serde_json::from_str(wire).ok()?;
+      let embedded = v.get("payload").and_then(|p| p.as_str()).filter(|s| !s.is_empty()).map(|s| s.as_bytes().to_vec());
+      let payload = match (embedded, detached) {
+        (Some(e), None) => Some(e),
+        (None, Some(d)) => Some(d.clone()),
+        _ => None,
+      };
+      let entries: Vec<&Value> = if let Some(a) = v.get("signatures").and_then(|s| s.as_array()) {
+        a.iter().collect()
+      } else {
+        vec![&v]
+      };
+      let sigs = entries
+        .iter()
+        .map(|e| {
+          (
+            e.get("protected").and_then(|p| p.as_str()).unwrap_or("").to_owned(),
+            e.get("signature").and_then(|s| s.as_str()).and_then(b64url_decode),
+          )
+        })
+        .collect();
+      Some(ReceivedView { payload, sigs })
+    }
+  }
+}
+
+fn receive(prop: &str, signers: &[Signer], events: &[SignEvent], n: &Notice, d: &Delivered) {
+  let rec = RecordingVerifier { log: RefCell::new(Vec::new()) };
+  let decoder = Decoder::new();
+  let detached_ref: Option<&[u8]> = d.detached.as_deref();
+  // decode + verify every signature with the key of the signer the receiver expects at that position
+  let mut outcomes: Vec<Result<(Vec<u8>, Value, Option<Value>), String>> = Vec::new();
+  let expected_signers: Vec<usize> = n.parts.iter().map(|p| p.signer).collect();
+  let mut verify_item = |item: identity_jose::jws::JwsValidationItem<'_>, idx: usize| -> Result<(Vec<u8>, Value, Option<Value>), String> {
+    let si = expected_signers.get(idx).copied().unwrap_or(expected_signers[0]);
+    let jwk: Jwk = serde_json::from_value(signers[si].jwk.clone()).map_err(|e| e.to_string())?;
+    let decoded = item.verify(&rec, &jwk).map_err(|e| e.to_string())?;
+    Ok((
+      decoded.claims.to_vec(),
+      serde_json::to_value(&decoded.protected).unwrap_or(Value::Null),
+      decoded.unprotected.as_ref().map(|u| serde_json::to_value(u).unwrap_or(Value::Null)),
+    ))
+  };
+  let decode_result: Result<(), String> = ctx::catch(|| match n.ser {
+    Ser::Compact => decoder
+      .decode_compact_serialization(d.wire.as_bytes(), detached_ref)
+      .map_err(|e| e.to_string())
+      .map(|item| outcomes.push(verify_item(item, 0))),
+    Ser::Flattened => decoder
+      .decode_flattened_serialization(d.wire.as_bytes(), detached_ref)
+      .map_err(|e| e.to_string())
+      .map(|item| outcomes.push(verify_item(item, 0))),
+    Ser::General => decoder
+      .decode_general_serialization(d.wire.as_bytes(), detached_ref)
+      .map_err(|e| e.to_string())
+      .map(|iter| {
+        for (i, item) in iter.enumerate() {
+          match item {
+            Ok(item) => outcomes.push(verify_item(item, i)),
+            Err(e) => outcomes.push(Err(e.to_string())),
+          }
+        }
+      }),
+  })
+  .unwrap_or_else(|p| {
+    // the statement of C01/C08 does not speak about crashes of the decoder: observation only
+    ctx::stat("observation.decoder_panic");
+    Err(format!("panic: {p}"))
+  });
+  let rv = view(n.ser, &d.wire, &d.detached);
+  let ser_name = format!("{:?}", n.ser).to_lowercase();
+
+  // ---- C01: what the library asked the verifier to check ----
+  let log = rec.log.borrow();
+  for r in log.iter() {
+    // must be ASCII(protected as received) '.' payload as received, for one of the received signatures
+    let matches_received = rv.as_ref().map(|v| {
+      v.payload.as_ref().map(|pl| {
+        v.sigs.iter().any(|(prot, sig)| {
+          let mut want = prot.as_bytes().to_vec();
+          want.push(b'.');
+          want.extend_from_slice(pl);
+          want == r.signing_input && sig.as_deref() == Some(r.signature.as_slice())
+        })
+      })
+    });
+    if matches_received != Some(Some(true)) {
+      ctx::violation(
+        "C01",
+        "C01.signing_input_is_received_bytes",
+        format!("{ser_name}/{:?}/signing-input-not-received-bytes", d.mv),
+        format!(
+          "verifier was asked to check {:?}, which is not protected-as-received '.' payload-as-received of any received signature",
+          String::from_utf8_lossy(&r.signing_input)
+        ),
+      );
+    }
+    // alg must be the one in the received protected header of that signature
+    if let Some(v) = &rv {
+      let prot = v.sigs.iter().find(|(prot, _)| r.signing_input.starts_with(prot.as_bytes())).map(|(p, _)| p.clone());
+      let hdr_alg = prot
+        .and_then(|p| b64url_decode(&p))
+        .and_then(|b| serde_json::from_slice::<Value>(&b).ok())
+        .and_then(|h| h.get("alg").and_then(|a| a.as_str().map(str::to_owned)));
+      if hdr_alg.as_deref() != Some(r.alg.as_str()) {
+        ctx::violation(
+          "C01",
+          "C01.alg_from_protected_header",
+          format!("{ser_name}/{:?}/alg-not-from-protected-header", d.mv),
+          format!("verifier was called with alg {} but the received protected header names {hdr_alg:?}", r.alg),
+        );
+      }
+    }
+  }
+  // ---- per signature verdicts ----
+  let tampered = d.mv != Move::Intact;
+  for (i, o) in outcomes.iter().enumerate() {
+    match o {
+      Ok((claims, protected, unprotected)) => {
+        ctx::stat("probe.verified_ok");
+        // reported verified => the real verifier was called for these bytes and returned Ok
+        let backing = log.iter().any(|r| r.ok);
+        if !backing {
+          ctx::violation("C01", "C01.verified_only_if_check_succeeded", format!("{ser_name}/{:?}/no-successful-check", d.mv), "token reported verified but no verifier call succeeded");
+        }
+        // a matching honest signing event exists for exactly the verified bytes
+        let honest = log.iter().filter(|r| r.ok).any(|r| events.iter().any(|e| e.signing_input == r.signing_input && e.signature == r.signature));
+        if !honest {
+          ctx::violation(
+            "C01",
+            "C01.verified_only_if_check_succeeded",
+            format!("{ser_name}/{:?}/no-honest-signing-event", d.mv),
+            "token reported verified although no signer ever signed these bytes",
+          );
+        }
+        // claims handed back are the signed payload (decoded unless b64=false)
+        let want_claims: Option<Vec<u8>> = rv.as_ref().and_then(|v| v.payload.clone()).and_then(|pl| {
+          let b64_flag = protected.get("b64").and_then(|b| b.as_bool()).unwrap_or(true);
+          if b64_flag {
+            b64url_decode(&String::from_utf8_lossy(&pl))
+          } else {
+            Some(pl)
+          }
+        });
+        if want_claims.as_ref() != Some(claims) {
+          ctx::violation(
+            "C01",
+            "C01.claims_are_signed_payload",
+            format!("{ser_name}/{:?}/claims-differ", d.mv),
+            format!("claims handed back {:?} are not the signed payload {:?}", String::from_utf8_lossy(claims), want_claims.map(|c| String::from_utf8_lossy(&c).into_owned())),
+          );
+        }
+        if tampered && !matches!(d.mv, Move::BothPayloads) {
+          // any difference in protected header, payload or signature from every honest token must be rejected;
+          // (a tampering that left this particular signature's bytes intact is not a difference for it)
+          let intact_for_this = rv
+            .as_ref()
+            .map(|v| {
+              v.sigs.get(i).map(|(p, s)| *p == n.parts[i].protected_b64 && s.as_deref() == Some(n.parts[i].signature.as_slice())).unwrap_or(false)
+                && v.payload.as_deref() == Some(n.signed_payload.as_slice())
+            })
+            .unwrap_or(false);
+          if !intact_for_this {
+            ctx::violation(
+              "C01",
+              "C01.bit_change_makes_verification_fail",
+              format!("{ser_name}/{:?}/tampered-token-verified", d.mv),
+              format!("a token differing from the signed one ({:?}) was reported verified", d.mv),
+            );
+          }
+        }
+        if !tampered {
+          // C08 I8.1: same payload, headers and signing input as signed
+          if claims != &n.raw_payload {
+            ctx::violation(
+              "C08",
+              "C08.produced_token_decodes_and_verifies",
+              format!("{ser_name}/decoded-payload-differs"),
+              format!("decoded payload {:?} differs from the signed payload {:?}", String::from_utf8_lossy(claims), String::from_utf8_lossy(&n.raw_payload)),
+            );
+          }
+          let want_prot = &n.parts[i].protected;
+          if !n.via_create_jws && protected != want_prot {
+            ctx::violation(
+              "C08",
+              "C08.produced_token_decodes_and_verifies",
+              format!("{ser_name}/protected-header-differs"),
+              format!("decoded protected header {protected} differs from the one signed {want_prot}"),
+            );
+          }
+          if !n.via_create_jws && unprotected != &n.parts[i].unprotected {
+            ctx::violation(
+              "C08",
+              "C08.produced_token_decodes_and_verifies",
+              format!("{ser_name}/unprotected-header-differs"),
+              format!("decoded unprotected header {unprotected:?} differs from {:?}", n.parts[i].unprotected),
+            );
+          }
+        }
+      }
+      Err(e) => {
+        if tampered {
+          ctx::stat("probe.tampered_rejected");
+        } else {
+          let needs_escape = n.raw_payload.iter().any(|b| *b == b'"' || *b == b'\\' || *b < 0x20);
+          ctx::violation(
+            "C08",
+            "C08.produced_token_decodes_and_verifies",
+            format!(
+              "{ser_name}/b64={}/{}/{}/own-token-rejected",
+              n.b64,
+              if n.detached.is_some() { "detached" } else { "attached" },
+              if needs_escape && !n.b64 { "payload-needs-json-escape" } else { "plain-payload" }
+            ),
+            format!("the library's own {ser_name} token (signature {i}) was rejected by its decoder/verifier: {e}"),
+          );
+        }
+      }
+    }
+  }
+  if outcomes.is_empty() {
+    match (&decode_result, tampered) {
+      (Err(e), false) => {
+        let needs_escape = n.raw_payload.iter().any(|b| *b == b'"' || *b == b'\\' || *b < 0x20);
+        if needs_escape && !n.b64 {
+          ctx::stat("probe.payload_needs_json_escape");
+        }
+        ctx::violation(
+          "C08",
+          "C08.produced_token_decodes_and_verifies",
+          format!(
+            "{ser_name}/b64={}/{}/{}/own-token-does-not-decode",
+            n.b64,
+            if n.detached.is_some() { "detached" } else { "attached" },
+            if needs_escape && !n.b64 { "payload-needs-json-escape" } else { "plain-payload" }
+          ),
+          format!("the library's own {ser_name} token does not decode: {e}; token: {}", d.wire.chars().take(200).collect::<String>()),
+        );
+      }
+      (Err(_), true) => ctx::stat("probe.tampered_rejected"),
+      _ => {}
+    }
+  } else if !tampered {
+    let needs_escape = n.raw_payload.iter().any(|b| *b == b'"' || *b == b'\\' || *b < 0x20);
+    if needs_escape && !n.b64 && n.ser != Ser::Compact && n.detached.is_none() {
+      ctx::stat("probe.payload_needs_json_escape");
+    }
+  }
+  let _ = prop;
+}
+
+/// C08 I8.3: a token made for one method is rejected under another method's key, another nonce, an excluding scope.
+fn separation(signers: &[Signer], n: &Notice) {
+  if !n.via_create_jws || n.parts.len() != 1 {
+    return;
+  }
+  let s = &signers[n.parts[0].signer];
+  let SignerKind::Stored(p) = &s.kind else { return };
+  let doc = p.doc.core();
+  let kid_is_method = n.parts[0].protected.get("kid").and_then(|k| k.as_str()) == Some(s.kid().as_str());
+  let detached: Option<&[u8]> = n.detached.as_deref();
+  let verifier = EdDSAJwsVerifier::default();
+  let base = || {
+    let mut o = JwsVerificationOptions::default();
+    if let Some(nn) = &n.nonce {
+      o = o.nonce(nn.clone());
+    }
+    if !kid_is_method {
+      o = o.method_id(identity_did::DIDUrl::parse(s.kid()).unwrap());
+    }
+    o
+  };
+  // positive: verifies against the document and key it was produced for
+  if let Err(e) = doc.verify_jws(&n.wire, detached, &verifier, &base()) {
+    ctx::violation(
+      "C08",
+      "C08.produced_token_decodes_and_verifies",
+      "create_jws/does-not-verify-against-own-document",
+      format!("token made by create_jws does not verify against its own document: {e}"),
+    );
+    return;
+  }
+  // another method's key
+  let other = identity_did::DIDUrl::parse(format!("{}#second", s.did)).unwrap();
+  if doc.verify_jws(&n.wire, detached, &verifier, &base().method_id(other)).is_ok() {
+    ctx::violation("C08", "C08.separation", "verifies-under-other-method", "token made for #key verifies under the key of #second");
+  } else {
+    ctx::stat("probe.separation.other_key_rejected");
+  }
+  // another nonce
+  if doc.verify_jws(&n.wire, detached, &verifier, &base().nonce("someothernonce".to_owned())).is_ok() {
+    ctx::violation("C08", "C08.separation", "verifies-under-other-nonce", "token verifies under a different nonce");
+  } else {
+    ctx::stat("probe.separation.other_nonce_rejected");
+  }
+  // a scope that excludes the method (#key is general purpose, possibly referenced from authentication only)
+  let scope = MethodScope::VerificationRelationship(identity_verification::MethodRelationship::KeyAgreement);
+  if doc.verify_jws(&n.wire, detached, &verifier, &base().method_scope(scope)).is_ok() {
+    ctx::violation("C08", "C08.separation", "verifies-under-excluding-scope", "token verifies under a scope that does not contain its method");
+  } else {
+    ctx::stat("probe.separation.scope_rejected");
+  }
+}
+
+pub fn run(prop: &str, _params: &Params) {
+  let clock = Clock { now: ctx::BASE_TIME };
+  clock.enter(0);
+  let mut signers: Vec<Signer> = Vec::new();
+  if let Some(s) = new_stored_signer(0, &clock) {
+    signers.push(s);
+  }
+  match ctx::choose(3) {
+    0 => signers.push(new_kms_signer(1, false)),
+    1 => signers.push(new_kms_signer(1, true)),
+    _ => {
+      if let Some(s) = new_stored_signer(1, &clock) {
+        signers.push(s);
+      }
+    }
+  }
+  if ctx::choose(2) == 0 {
+    signers.push(new_kms_signer(2, ctx::choose(2) == 0));
+  }
+  if signers.is_empty() {
+    return;
+  }
+  let faulty_storage = prop == "C08" && ctx::choose(2) == 0;
+  let mut events: Vec<SignEvent> = Vec::new();
+  let mut notices: Vec<Notice> = Vec::new();
+  let count = 3 + ctx::choose(8);
+  for _ in 0..count {
+    let n = if prop == "C08" && ctx::choose(3) == 0 {
+      let stored: Vec<usize> = signers.iter().enumerate().filter(|(_, s)| matches!(s.kind, SignerKind::Stored(_))).map(|(i, _)| i).collect();
+      if stored.is_empty() {
+        None
+      } else {
+        let si = stored[ctx::choose(stored.len())];
+        let n = produce_create_jws(&signers, si, faulty_storage);
+        if let Some(n) = &n {
+          // the signing event was logged at the storage seam
+          events.push(SignEvent {
+            signer: si,
+            signing_input: {
+              let mut v = n.parts[0].protected_b64.as_bytes().to_vec();
+              v.push(b'.');
+              v.extend_from_slice(&n.signed_payload);
+              v
+            },
+            signature: n.parts[0].signature.clone(),
+          });
+        }
+        n
+      }
+    } else {
+      let ser = [Ser::Compact, Ser::Flattened, Ser::General][ctx::choose(3)];
+      produce(&signers, &mut events, ser)
+    };
+    if let Some(n) = n {
+      ctx::stat(match n.ser {
+        Ser::Compact => "probe.ser.compact",
+        Ser::Flattened => "probe.ser.flattened",
+        Ser::General => "probe.ser.general",
+      });
+      for p in &n.parts {
+        ctx::stat(&format!("probe.alg.{}", signers[p.signer].alg));
+      }
+      if !n.b64 {
+        ctx::stat("probe.b64_false");
+      }
+      if n.detached.is_some() {
+        ctx::stat("probe.detached");
+      }
+      ctx::sched("ser", n.ser as u64 * 4 + (n.b64 as u64) * 2 + n.detached.is_some() as u64);
+      ctx::trace(format!(
+        "notice {:?} b64={} detached={} signers={:?} create_jws={} payload={:?}",
+        n.ser,
+        n.b64,
+        n.detached.is_some(),
+        n.parts.iter().map(|p| signers[p.signer].alg).collect::<Vec<_>>(),
+        n.via_create_jws,
+        String::from_utf8_lossy(&n.raw_payload).chars().take(40).collect::<String>()
+      ));
+      notices.push(n);
+    }
+  }
+  for i in 0..notices.len() {
+    let n = notices[i].clone();
+    // C08 delivers intact (completeness of the library's own output); C01 lets the network and adversary act
+    let d = if prop == "C01" {
+      deliver(&n, &notices)
+    } else {
+      Delivered {
+        wire: n.wire.clone(),
+        detached: n.detached.clone(),
+        mv: Move::Intact,
+      }
+    };
+    if d.mv != Move::Intact {
+      ctx::mark_nontrivial();
+      ctx::sched("mv", d.mv.clone() as u64);
+    }
+    ctx::trace(format!("deliver notice {i} {:?}", d.mv));
+    receive(prop, &signers, &events, &n, &d);
+    if prop == "C08" {
+      separation(&signers, &n);
+    }
+    if ctx::has_violation() {
+      break;
+    }
+  }
+}
